@@ -9,5 +9,6 @@ CONSTANTS N = 4
  ReadErrAllowed = TRUE
  FixWorkerErr = TRUE
  FixQueueCtx = FALSE
+ WriterLimit = 0
 INVARIANTS RecvOKImpliesComplete SendOKImpliesFin NoDataOverrun TypeOK
 CHECK_DEADLOCK TRUE
